@@ -1,0 +1,11 @@
+//go:build !verif
+
+package collect
+
+// verifEmit is a no-op unless Refinery is built with the "verif" build tag; see
+// verif_on.go. It exists so that external conformance checkers can observe the
+// collector's linearization points without changing its behaviour.
+func verifEmit(event string, kv ...any) {}
+
+// verifHeapOverride never overrides the heap reading in normal builds.
+func verifHeapOverride() (uint64, bool) { return 0, false }
